@@ -37,6 +37,16 @@ CHECKS = {
    text="Specification -> code: every pair (mutating call, any call) over the DsGen states of lists, sets and sorted sets is executed as one two-operation write transaction (sampled in the quick tier, all pairs in the thorough tier), plus random multi-operation transactions with reads and pops between the operations; TLC validates each recorded result against the transaction's own view (start state + its earlier operations, Nuts.tla tx.view) and the committed state against that view. SerialView/SerialResults are model-checked on NutsMC. The pinned tree evaluates reads inside a write transaction on the committed state only; that behaviour is the named deviation F-C13-1 and is reported as KNOWN-FINDING, anything else is a VIOLATION.",
    note="Trusts TLC and the recording wrapper. Because F-C13-1 is a recorded deviation, a new defect whose results coincide with 'evaluated on the committed state' is not distinguished from it.",
    technique="TLC-enumerated two-operation transactions replayed into the code + TLA+ trace validation"),
+ "C09": dict(
+   cat="model_checking", design="DESIGN.md section 6 C09",
+   text="Trace validation in which every Open of a library-produced directory is an event whose only admitted outcome is success serving Replay(log) (action Open of Nuts.tla): histories whose entries fill a segment to exactly 0,1,2,41..47 bytes before its end (with empty values ending exactly at the segment end), under both RAM index modes x FileIO/MMap x both StartFileLoadingModes, with reads of never-written buckets, followed by Close/Open and shadow opens; plus the mixed (no-op operations), failing-commit and merge histories of C08/C12/C15, each with real and shadow reopens.",
+   note="Trusts TLC and the recording wrapper. Directories produced by a crash (torn last record) are judged with the same rule by the crash-image checks C10/C11/C16; sparse-mode directories by C02.",
+   technique="TLA+ trace validation with TLC (code -> spec): Open admitted only as success"),
+ "C15": dict(
+   cat="model_checking", design="DESIGN.md section 6 C15",
+   text="Trace validation of histories with Merge at random quiescent points (also twice in a row, with fewer than two files, and with an I/O fault injected at a random file mutation inside Merge): each merge event carries the full observation of the running process and of a reopened copy taken right after the call, and TLC accepts it only if both equal the unchanged model state (mem and Replay(log)); the histories continue with writes, reads, shadow and real reopens, so writes after Merge are checked for durability. KV histories (TTL, deletes, failed transactions) run in both RAM modes and are judged to the end; set/sorted-set histories without SMove likewise; on histories with list records the pinned tree deviates (known finding F-C15-1) and the remainder of that history is not judged.",
+   note="Trusts TLC and the recording wrapper. MergePreserves is model-checked on NutsMC only at API grain (Merge is a stuttering step of the specification).",
+   technique="TLA+ trace validation with TLC (code -> spec) with fault injection + bounded model checking of NutsMC"),
  "C01": dict(
    cat="model_checking", design="DESIGN.md section 6 C01",
    text="Trace validation: seeded random KV histories (multi-bucket, TTL on both sides of expiry, segments of 128-512 bytes so nearly every transaction rotates, reopen) are executed on the real library in HintKeyValAndRAMIdxMode and HintKeyAndRAMIdxMode x FileIO and MMap, every call is recorded, and TLC accepts the trace only if every Get/GetAll/RangeScan/PrefixScan/PrefixSearchScan result equals the KVSpec ordered-map-with-TTL result on the specification state (Nuts.tla). The API-grain design is model-checked exhaustively for a small universe (NutsMC_kv.cfg).",
